@@ -37,7 +37,12 @@ def run(chk):
                 'addresses, counters 0/1/254/255, T at edge - k*loop_time +-1, block/tape ends, pauses, key stops, DEC A loops with A in 0..255, '
                 'IN from ROM-loader/AY/odd ports), Python and C; tables exhaustively; e2e: tap2sna over accelerator x accelerate-dec-a x pause x '
                 'fast-load x cmio x python x polarity x first-edge on bin2tap tapes and on custom loaders built from each recognised loop shape. '
-                'non-trivial = distinct (implementation, kind, tape state, clock, accelerators) / distinct (tape, configuration)')
+                'non-trivial = distinct (implementation, kind, tape state, clock, accelerators) / distinct (tape, configuration). directed groups '
+                '(every run): for every table entry the loop goes on sampling on the real simulators exactly while (ear, ear_mask, polarity) say so; '
+                'DEC A loops with boundary A and across the 64K wrap; counters about to run out with the edge far away; the 1 ms / 1 s / PC-in-RAM '
+                'stop conditions at +-1; the Python and the C load loop run against each other across a frame boundary with interrupts enabled; '
+                'e2e: tapes ending at 0xFFFF, stray blocks before the program, A and F of DEC A (loops and single) kept in RAM / final F, the '
+                'clock the simulation ends on compared among runs with equal pause, a tape that loads only under some settings is a violation')
     chk.trusted += ['translator translate/py2lean.py for the Z80 closures (validated per slot by C05/C06/C08 runs)',
                     'translate/gen_c13.py: ACCELERATORS dumped as data on every run (compared entry by entry with the imported table)',
                     'hand models Model/LoadAccel.lean, Model/LoadTape.lean, Model/AccelWalk.lean tied by correspondence (one load-loop iteration, Python and C)',
@@ -75,6 +80,7 @@ def run(chk):
     c13_corr.walks(chk, loadsample, classes, use_driver=ok)     # the dynamic part is an oracle on the real table + simulators
     if ok:
         c13_corr.lsteps(chk, loadtracer, loadsample, tape, classes)
+    c13_corr.int_lsteps(chk, loadtracer, loadsample, tape, classes)
     c13_e2e.run(chk, classes)
     chk.exhaustive = False
 
@@ -83,6 +89,18 @@ def replay(chk, data):
     from props import c13_corr, c13_e2e
     from simcheck import build_impls
     impls, classes = build_impls(chk)
+    if data.get('kind') == 'lstep-int':
+        loadtracer, loadsample, tape = fresh_import('skoolkit.loadtracer', 'skoolkit.loadsample', 'skoolkit.tape')
+        case = data['case']
+        case['mem'] = {int(k): v for k, v in case['mem'].items()}
+        case['blocks'] = [tuple(b) for b in case['blocks']]
+        outs = {}
+        for n in ('py-plain', 'c-plain'):
+            rig = c13_corr.LoadRig(n, dict(classes)[n], loadtracer, tape, n.startswith('c'))
+            ok, r = c13_corr.forked(lambda: c13_corr.run_cases(rig, [dict(case)], {}))
+            outs[n] = ' '.join(r[0][0].split()) if ok else f'CRASH {r}'
+            print(n, outs[n][:300])
+        return outs['py-plain'] != outs['c-plain']
     if data.get('kind') == 'lstep':
         # a load-loop iteration on which the C extension died
         loadtracer, loadsample, tape = fresh_import('skoolkit.loadtracer', 'skoolkit.loadsample', 'skoolkit.tape')
